@@ -105,6 +105,14 @@ def workflows():
                     {'stage0.S': m(), 'stage0.0#L': m(producers=['stage0.S']), 'stage0.1#L': m(producers=['stage0.S', 'stage0.0#L']),
                      'stage0.2#L': m(producers=['stage0.S', 'stage0.1#L']),
                      'stage1.C': m(1, ['stage0.0#L', 'stage0.1#L', 'stage0.2#L'])})
+    W['dowhile-same'] = ({'components': [comp('S'), {'name': 'loop', 'stage': 0, '$import': 'dowhile.yaml', 'bindings': {'src': 'S:ref'}},
+                                          comp('Q', ['L:ref'])]},
+                         {'stage0.S': m(), 'stage0.0#L': m(producers=['stage0.S']), 'stage0.1#L': m(producers=['stage0.S', 'stage0.0#L']),
+                          'stage0.2#L': m(producers=['stage0.S', 'stage0.1#L']),
+                          'stage0.Q': m(0, ['stage0.0#L', 'stage0.1#L', 'stage0.2#L'])})
+    DOWHILE_EXTRAS['dowhile-same'] = {'extra_files': {'conf/dowhile.yaml': json.dumps(dw)},
+                                      'exit_files': {'L': {'cond.txt': ['True', 'True', 'False']}},
+                                      'loop': ['stage0.0#L', 'stage0.1#L', 'stage0.2#L']}
     DOWHILE_EXTRAS['dowhile'] = {'extra_files': {'conf/dowhile.yaml': json.dumps(dw)}, 'exit_files': {'L': {'cond.txt': ['True', 'True', 'False']}},
                                  'loop': ['stage0.0#L', 'stage0.1#L', 'stage0.2#L']}
     return W
@@ -251,6 +259,11 @@ TRACE_QUICK = [('pair', {}, 'loop'), ('pair', {'stage0.P1': 'KS'}, 'loop'), ('pa
                ('chain2', {'stage0.A': 'RS'}, 'postmortem')]
 
 
+PAUSE_SCENARIOS = [('dowhile-same', {}, [1.5, 2.5]), ('dowhile-same', {}, [2.5, 3.5]), ('dowhile', {}, [1.5, 2.5]),
+                   ('chain2', {}, [0.5, 1.5]), ('chain2', {'stage0.A': 'KF'}, [0.5, 30.0]), ('observer', {}, [1.5, 9.0]),
+                   ('fanin', {'stage0.P1': 'KS'}, [0.5, 1.5])]
+
+
 def make_scenarios(tier):
     """Deterministic list of scenario dicts: {'id', 'wf', 'labels': {node: label}, 'dur': {node: seconds}}"""
     W = workflows()
@@ -293,6 +306,11 @@ def make_scenarios(tier):
     for wf, lab, dur in TRACE_SCENARIOS:
         for g in TRACE_GROUPS:
             out.append({'wf': wf, 'labels': lab, 'dur': dur, 'trace': TRACE_GROUPS[g], 'group': g})
+    # the operator pauses the controller (Controller.sleep) and wakes it up again while notifications arrive; line-level
+    # preemption inside wake_up / finishedCheck, with a long stall so that a periodic scheduler pass fits into the window
+    for wf, lab, pause in PAUSE_SCENARIOS:
+        out.append({'wf': wf, 'labels': lab, 'dur': {}, 'pause': pause, 'stalls': [6.0], 'group': 'pause',
+                    'trace': [['control.py', 'wake_up'], ['control.py', 'finishedCheck']]})
     # the experiment is (re)started from a later stage: the components of the skipped stages count as finished
     for lab in ({}, {'stage1.P': 'KS'}, {'stage1.P': 'KF'}, {'stage1.Q': 'KS'}, {'stage1.P': 'RS'}):
         for dur in ({}, {'stage1.Q': 40.0}, {'stage1.P': 40.0}):
@@ -497,7 +515,7 @@ def run_one(col, which, scn, prefix, remaining, boundary_only=False):
             if n not in loop_nodes and any(p in loop_nodes for p in mm['producers']):
                 EXTRA_PREDECESSORS[n] = [p for p in mm['producers'] if p in loop_nodes]
     # ComponentState.run snapshots
-    x = h.execute(hs, prefix, trace=scn.get('trace'))
+    x = h.execute(hs, prefix, trace=scn.get('trace'), pause=scn.get('pause'), stalls=scn.get('stalls'))
     col.evaluated()
     col.traces += 1
     col.transitions += x.steps
@@ -608,7 +626,7 @@ def run(ctx, which):
     nrace = 0
     traced = [x for x in scns if x.get('trace')]
     if ctx.tier != 'thorough':
-        fixed = [x for x in traced if (x['wf'], x['labels'], x['group']) in TRACE_QUICK]
+        fixed = [x for x in traced if (x['wf'], x['labels'], x['group']) in TRACE_QUICK or (x['group'] == 'pause' and x['wf'] == 'dowhile-same' and x['pause'] == [1.5, 2.5])]
         rest = [x for x in traced if x not in fixed and x['group'] != 'schedule']
         traced = fixed + [rest[(2 * ctx.seed + k) % len(rest)] for k in range(2)]
     races = [(w, l, {}) for w, l in races] + [('late-sibling', {'stage0.Y': 'KF', 'stage0.X': 'RS'}, {'stage0.X': 24.0}),
